@@ -28,3 +28,82 @@ fn c07_o1_make_split_id() {
     kani::cover!(p == MAX_PAGES - 1 && s == PAGE_LEN - 1);
     kani::cover!(p == 0 && s == 0);
 }
+
+/// A minimal slot type for page-level harnesses.
+pub(crate) struct VSlot {
+    x: u64,
+    memos: MemoTable,
+}
+
+// SAFETY: private harness type, unique to these harnesses.
+unsafe impl Slot for VSlot {
+    unsafe fn memos(slot: *const Self, _: Revision) -> *const MemoTable {
+        // SAFETY: caller passes a valid pointer.
+        unsafe { &raw const (*slot).memos }
+    }
+    fn memos_mut(&mut self) -> &mut MemoTable {
+        &mut self.memos
+    }
+}
+
+// @verif prop=C23,C24 obl=O1 tier=quick bounds="one page of 128 slots whose fill level is symbolic in 0..=128 (set directly; earlier slots are not read); one allocation; then one read at a symbolic slot index"
+// @+ encodes="PageView::allocate, Page::new, Table::push_page, Table::page, Table::get_raw, Table::get, Page::assert_type, PageView::data, PageView::page_data, make_id, split_id"
+/// C23-O1: allocating into a page writes exactly the next free slot and never past the end (a full page is refused);
+/// the returned id addresses that slot; reads through the table stay inside the initialized prefix (CBMC pointer and
+/// bounds checks) and see the value that was written.
+#[kani::proof]
+#[kani::unwind(4)]
+#[kani::stub(real_catch_unwind, stub_catch_unwind)]
+fn c23_o1_page_allocate_bounds() {
+    let table = Table::default();
+    let types = Arc::new(MemoTableTypes::default());
+    let page = table.push_page::<VSlot>(IngredientIndex::new(0), types.clone());
+    let fill: usize = kani::any();
+    kani::assume(fill <= PAGE_LEN);
+    table.pages[page.0].allocated.store(fill, Ordering::Release);
+    let x: u64 = kani::any();
+    // SAFETY: single-threaded; we are the unique writer of the page.
+    let res = unsafe { table.page::<VSlot>(page).allocate(page, |_| VSlot { x, memos: MemoTable::new(&types) }) };
+    match res {
+        Ok((id, r)) => {
+            assert!(fill < PAGE_LEN, "C23: allocation into a full page (write past the end of the page)");
+            let (p, s) = split_id(id);
+            assert!(p.0 == page.0 && s.0 == fill, "C24: the new value did not get the next free slot");
+            assert!(r.x == x);
+            assert!(table.pages[page.0].allocated.load(Ordering::Acquire) == fill + 1);
+            let back: &VSlot = table.get(id);
+            assert!(back.x == x, "C24: the id does not read back the value it was created with");
+            assert!(std::ptr::eq(table.get_raw::<VSlot>(id), back as *const VSlot as *mut VSlot));
+        }
+        Err(_) => {
+            assert!(fill == PAGE_LEN, "C23: a page with free slots refused an allocation");
+            assert!(table.pages[page.0].allocated.load(Ordering::Acquire) == PAGE_LEN);
+        }
+    }
+    kani::cover!(fill == PAGE_LEN);
+    kani::cover!(fill == PAGE_LEN - 1);
+    kani::cover!(fill == 0);
+    std::mem::forget(table);
+}
+
+// @verif prop=C23 obl=O1 tier=quick bounds="one page with symbolic fill level < 128; read of a slot index >= fill level (symbolic)" covers=0/1
+// @+ encodes="Table::get_raw, PageView::page_data, split_id"
+/// C23-O1: reading a slot that was never allocated panics (bounds check) instead of exposing uninitialized memory.
+#[kani::proof]
+#[kani::unwind(4)]
+#[kani::should_panic]
+#[kani::stub(real_catch_unwind, stub_catch_unwind)]
+#[kani::stub(alloc::fmt::format, stub_format)]
+fn c23_o1_unallocated_slot_read_panics() {
+    let table = Table::default();
+    let types = Arc::new(MemoTableTypes::default());
+    let page = table.push_page::<VSlot>(IngredientIndex::new(0), types.clone());
+    let fill: usize = kani::any();
+    let s: usize = kani::any();
+    kani::assume(fill < PAGE_LEN && fill <= s && s < PAGE_LEN);
+    table.pages[page.0].allocated.store(fill, Ordering::Release);
+    let id = make_id(page, SlotIndex::new(s));
+    let _ = table.get_raw::<VSlot>(id);
+    kani::cover!(true, "MUST-BE-UNREACHABLE: an unallocated slot was handed out");
+    std::mem::forget(table);
+}
